@@ -445,6 +445,96 @@ def inline_simple_calls(repo, func, node=None, depth=2):
     return root
 
 
+class _Rename(ast.NodeTransformer):
+    def __init__(self, names, exprs):
+        self.names, self.exprs = names, exprs
+
+    def visit_Name(self, node):
+        if node.id in self.names:
+            return ast.copy_location(ast.Name(id=self.names[node.id], ctx=node.ctx), node)
+        if isinstance(node.ctx, ast.Load) and node.id in self.exprs:
+            import copy
+
+            return copy.deepcopy(self.exprs[node.id])
+        return node
+
+
+def inline_tail_calls(repo, func, depth=2):
+    """Copy of the function AST in which a statement `return helper(args)` / `x = helper(args)` at the top level of the
+    body, where helper is a function of the same module, is replaced by the helper's body: parameters bound to simple
+    names are renamed to those names, parameters bound to other expressions are substituted where they are only read
+    (or assigned first when the helper writes them).  For `x = helper(...)` only helpers whose single return is their
+    last statement are inlined (the return becomes the assignment)."""
+    import copy
+
+    root = copy.deepcopy(func.node)
+    for _ in range(depth):
+        changed = False
+        new_body = []
+        for st in root.body:
+            call = None
+            kind = None
+            if isinstance(st, ast.Return) and isinstance(st.value, ast.Call):
+                call, kind = st.value, "return"
+            elif isinstance(st, ast.Assign) and isinstance(st.value, ast.Call) and len(st.targets) == 1:
+                call, kind = st.value, "assign"
+            callee = repo.resolve_call(func, call) if call is not None else None
+            if callee is None or callee is func or callee.module is not func.module or callee.cls != func.cls and callee.cls is not None:
+                new_body.append(st)
+                continue
+            cbody = [x for x in callee.node.body if not (isinstance(x, ast.Expr) and isinstance(x.value, ast.Constant))]
+            rets = [x for x in ast.walk(callee.node) if isinstance(x, ast.Return)]
+            if len(cbody) < 2 or any(isinstance(a, ast.Starred) for a in call.args):
+                new_body.append(st)  # single-return helpers are handled by expression inlining
+                continue
+            if kind == "assign" and not (len(rets) == 1 and cbody[-1] is rets[0]):
+                new_body.append(st)
+                continue
+            params = callee.params[1:] if (callee.cls and isinstance(call.func, ast.Attribute)) else callee.params
+            amap = {p_: a for p_, a in zip(params, call.args)}
+            for k in call.keywords:
+                if k.arg:
+                    amap[k.arg] = k.value
+            for p_, d in zip(reversed(callee.node.args.args), reversed(callee.node.args.defaults)):
+                amap.setdefault(p_.arg, d)
+            if any(p_ not in amap for p_ in params):
+                new_body.append(st)
+                continue
+            written = set()
+            for x in ast.walk(callee.node):
+                if isinstance(x, ast.Name) and isinstance(x.ctx, ast.Store):
+                    written.add(x.id)
+            names, exprs, pre = {}, {}, []
+            for p_, a in amap.items():
+                if isinstance(a, ast.Name):
+                    names[p_] = a.id
+                elif p_ in written:
+                    pre.append(ast.copy_location(ast.Assign(targets=[ast.Name(id=p_, ctx=ast.Store())], value=copy.deepcopy(a)), st))
+                else:
+                    exprs[p_] = a
+            body = [_Rename(names, exprs).visit(copy.deepcopy(x)) for x in cbody]
+            if kind == "assign":
+                last = body[-1]
+                body[-1] = ast.copy_location(ast.Assign(targets=st.targets, value=last.value), last)
+            new_body.extend(pre + body)
+            changed = True
+        root.body = new_body
+        if not changed:
+            break
+    ast.fix_missing_locations(root)
+    return root
+
+
+def tail_inlined(repo, func):
+    node = inline_tail_calls(repo, func)
+    f2 = Func(func.module, func.qualname, node, func.cls, func.parent)
+    return f2
+
+
+def same_func(a, b):
+    return a is not None and b is not None and a.module.name == b.module.name and a.qualname == b.qualname
+
+
 def inlined(repo, func):
     """A Func whose node has the simple look-up helpers inlined (same module, same qualified name)."""
     f2 = Func(func.module, func.qualname, inline_simple_calls(repo, func), func.cls, func.parent)
